@@ -353,8 +353,9 @@ void long_list(std::uint64_t seed, int which)
 
 // Position-reporting containers given successive lifetimes in ONE storage (what a recycled heap block or a re-used stack slot
 // does by itself): the members of the container that lives there now are numbered from zero, at its own level, in its own
-// region, whatever the container that lived there before held.  Mappings, lambdas, enumerations and classes; interleaved so
-// that the last list added to before a container dies is the one that died.
+// region, whatever the container that lived there before held.  Mappings, lambdas, enumerations and classes: first eight
+// consecutive lifetimes of one kind with nothing else added to in between (the last list added to before a container is built is
+// the one that died in that storage), then all four kinds interleaved.
 void successive_lifetimes(std::uint64_t seed)
 {
    Rng rng(seed);
@@ -365,10 +366,12 @@ void successive_lifetimes(std::uint64_t seed)
    alignas(64) static std::byte slot_e[sizeof(impl::Enum)]; alignas(64) static std::byte slot_c[sizeof(impl::Class)];
    auto V = [&](const std::string& what, const std::string& msg, int life, std::size_t i) { ctx().viol("successive-lifetimes:" + what, msg, J().n("lifetime", life).n("index", (long long)i).str()); };
    std::vector<const Name*> ids; for (int i = 0; i < 12; ++i) ids.push_back(&lex.get_identifier(widen("sl" + std::to_string(i))));
+   for (int pass = 0; pass < 5; ++pass)
    for (int life = 0; life < 8; ++life) {
       const Region& where = life % 2 ? static_cast<const Region&>(*sub) : static_cast<const Region&>(greg);
       const std::size_t k = 1 + rng.below(9);
       const Mapping_level lvl { std::size_t(life % 3) };
+      if (pass == 0 || pass == 4)
       {  auto* m = std::construct_at(reinterpret_cast<impl::Mapping*>(slot_m), where, lvl);
          for (std::size_t i = 0; i < k; ++i) {
             auto* p = m->param(*ids[i], L.int_type());
@@ -380,6 +383,7 @@ void successive_lifetimes(std::uint64_t seed)
          if (&m->parameters().region().enclosing() != &where) V("parameter:enclosing", "the parameter region of a mapping built where an earlier mapping lived is not enclosed by the region it was created in", life, 0);
          ctx().count("containers_built_where_an_earlier_one_lived");
          std::destroy_at(m); }
+      if (pass == 1 || pass == 4)
       {  auto* m = std::construct_at(reinterpret_cast<impl::Lambda*>(slot_l), where, lvl);
          for (std::size_t i = 0; i < k; ++i) {
             auto* p = m->inputs.add_member(*ids[i], L.int_type());
@@ -388,6 +392,7 @@ void successive_lifetimes(std::uint64_t seed)
          }
          ctx().count("containers_built_where_an_earlier_one_lived");
          std::destroy_at(m); }
+      if (pass == 2 || pass == 4)
       {  auto* e = std::construct_at(reinterpret_cast<impl::Enum*>(slot_e), where, Enum::Kind::Scoped);
          for (std::size_t i = 0; i < k + 2; ++i) {
             auto* en = e->add_member(*ids[i]);
@@ -397,6 +402,7 @@ void successive_lifetimes(std::uint64_t seed)
          if (!e->region().owner().is_valid() || &e->region().owner().get() != static_cast<const Expr*>(e)) V("enum:owner", "the region of an enumeration built where an earlier one lived does not name it as owner", life, 0);
          ctx().count("containers_built_where_an_earlier_one_lived");
          std::destroy_at(e); }
+      if (pass == 3 || pass == 4)
       {  auto* c = std::construct_at(reinterpret_cast<impl::Class*>(slot_c), where);
          for (std::size_t i = 0; i < k + 1; ++i) {
             auto* b = c->declare_base(i % 2 ? L.int_type() : L.char_type());
